@@ -55,6 +55,9 @@ std::unordered_map<uintptr_t, Cell> g_shadow;
 thread_local int tl_ignore = 0;
 thread_local uintptr_t tl_last_pc = 0;   // most recent instrumented code address of this thread (site of a free())
 thread_local int tl_busy = 0;   // inside the detector: its own allocations and frees are not tracked
+// set when the scheduler has been told that this thread is over: what it still does (thread-local destructors, freeing its
+// stack bookkeeping) runs concurrently with the next scheduled thread and must not touch the detector's (unlocked) state
+thread_local bool tl_dead = false;
 struct Busy {
     Busy() { ++tl_busy; }
     ~Busy() { --tl_busy; }
@@ -101,7 +104,7 @@ std::vector<Report> g_reports;
 std::set<std::pair<uintptr_t, uintptr_t>> g_seen;
 
 inline int me() { return vs::self(); }
-inline bool live() { return g_on && vs::active() && tl_ignore == 0 && me() >= 0 && me() < MAXT; }
+inline bool live() { return g_on && !tl_dead && vs::active() && tl_ignore == 0 && me() >= 0 && me() < MAXT; }
 
 void report(uintptr_t addr, const Acc &prev, bool prev_w, int t, uintptr_t pc, bool cur_w) {
     Busy busy;
@@ -223,6 +226,7 @@ void rd_thread_begin(int t) {
     }
 }
 void rd_thread_end(int t) {
+    rd::tl_dead = true;
     if (!rd::g_on || t >= rd::MAXT) return;
     rd::g_final[t] = rd::g_vc[t];
 }
@@ -391,7 +395,7 @@ void __tsan_atomic_signal_fence(int) {}
 extern void __libc_free(void *);
 extern void *__libc_realloc(void *, size_t);
 void free(void *p) {
-    if (p && rd::g_on && rd::tl_busy == 0 && !rd::g_shadow.empty()) {
+    if (p && rd::g_on && !rd::tl_dead && rd::tl_busy == 0 && !rd::g_shadow.empty()) {
         // handing memory back is a write to all of it (the deallocating code in libstdc++ is not instrumented:
         // the site reported is the last instrumented address this thread passed)
         size_t n = malloc_usable_size(p);
